@@ -24,6 +24,7 @@ ASSUMPTIONS = [
     "valid populations per DESIGN.md 2.2 with per-person variation of flags and amounts",
 ]
 BUDGET = {"quick": (32, 12), "thorough": (None, 80)}
+EARLY = 6  # additional strata from 2005-2014 in the quick tier (all of them in the thorough tier)
 GEN = dict(mode="branch", max_households=4)
 FLAGS = ["bürgerg_bezug_vorj", "in_priv_krankenv", "arbeitssuchend", "anwartschaftszeit",
          "pflichtbeitr_8_in_10", "schwerbeh_g"]
